@@ -572,7 +572,10 @@ func c04Gen(c *Ctx) {
 			p7Eval(c, Case{"op": "p7", "class": class, "certkind": kc.kind, "blob": hx(blob), "cert": hx(kc.c.Raw), "seed": s.name}, "C04")
 		}
 	}
-	for _, s := range seeds {
+	for si, s := range seeds {
+		if !c.Mine(si) { // thorough tier: the seeds are divided among the shard processes
+			continue
+		}
 		run(s, "seed", s.blob, true)
 		forgeries(c, s, func(class string, b []byte) { run(s, class, b, !strings.HasPrefix(class, "oid-swap") || c.Thorough) })
 		mutateBlob(c, s.blob, func(class string, b []byte) { run(s, class, b, c.Rng.Intn(8) == 0) })
